@@ -193,6 +193,9 @@ func drawOpts(r *rng, gp *genParser, memoPct, recoverFalsePct int) parsersim.Opt
 	if r.chance(1, 3) {
 		o.Shuffle = r.u64() | 1
 	}
+	if r.chance(1, 3) {
+		o.SpareCap = true
+	}
 	return o
 }
 
